@@ -467,7 +467,7 @@ func sliceLenOf(v ssa.Value, depth int) int64 {
 
 // checkLoadWidths (R03.41): a load writes every dword of its destination.
 func checkLoadWidths(c *core.Ctx, handlers []handlerRef) {
-	st := c.Rule("R03.41", "a FLAT or DS load hands the destination as many bytes as the destination has registers (WriteOperandBytes(inst.Dst, lane, bytes) with 4 bytes per register of the mnemonic: sub-dword loads are zero- or sign-extended into a whole VGPR, dwordxN loads deliver 4N bytes): the register write copies just the bytes it is given, so a 2-byte slice for flat_load_ushort leaves bits 31..16 of the VGPR as they were", 20)
+	st := c.Rule("R03.41", "a FLAT or DS load hands the destination as many bytes as the destination has registers (WriteOperandBytes(inst.Dst, lane, bytes) with 4 bytes per register of the mnemonic: sub-dword loads are zero- or sign-extended into a whole VGPR, dwordxN loads deliver 4N bytes): the register write copies just the bytes it is given, so a 2-byte slice for flat_load_ushort leaves bits 31..16 of the VGPR as they were", 16)
 	seen := map[string]bool{}
 	for _, h := range handlers {
 		want := int64(-1)
